@@ -1,9 +1,10 @@
 package main
 
 import (
-	"bytes"
 	"context"
+	"encoding/json"
 	"fmt"
+	"path/filepath"
 	"runtime"
 	"sort"
 	"strconv"
@@ -12,9 +13,15 @@ import (
 	"sync/atomic"
 	"time"
 
+	ipfslog "berty.tech/go-ipfs-log"
 	orbitdb "berty.tech/go-orbit-db"
+	"berty.tech/go-orbit-db/accesscontroller"
+	"berty.tech/go-orbit-db/address"
+	"berty.tech/go-orbit-db/cache"
+	"berty.tech/go-orbit-db/cache/cacheleveldown"
 	"berty.tech/go-orbit-db/iface"
 	"berty.tech/go-orbit-db/stores/operation"
+	datastore "github.com/ipfs/go-datastore"
 	"verifharness/sim"
 )
 
@@ -23,7 +30,7 @@ func init() { drivers["C17"] = driver{"C17", runC17} }
 // ---------------------------------------------------------------------------------------
 // Step-wise control of writer goroutines.
 //
-// Every writer goroutine registers its goroutine id before calling Put/Add.  The write
+// Every writer goroutine registers its goroutine id before its first call.  The write
 // path runs synchronously on that goroutine (Put -> AddOperation -> Append -> Cache().Put
 // -> updateIndex -> UpdateIndex), so the schedule-point callback (sim.TheHooks.Extra, which
 // is invoked on the goroutine that reached the point, before any gate) knows exactly which
@@ -31,13 +38,24 @@ func init() { drivers["C17"] = driver{"C17", runC17} }
 // then releases one specific writer by one step.  Goroutine ids are used for
 // identification only and never end up in an observable.
 //
-// Points (model program counters of coq/Model/Writers.v):
+// A writer goroutine is a model thread (coq/Model/Writers.v): it performs its calls one
+// after the other, a call writes one entry (Put, Delete, PutAll, Add) or several (PutBatch,
+// which loops over Put on the unchanged tree), and the thread's count is the number of
+// single-entry writes it makes.  The points park it inside any of them, so also in the
+// middle of a batch.
+//
+// Points (model program counters of coq/Model/Writers.v), mode "steps":
 //   store.after_append / store.before_persist
 //                       : WAppended   (entry appended, _localHeads not yet written)
 //   store.after_persist : WPersisted  (_localHeads written, view not yet rebuilt)
 //   index.after_read    : WIndexRead  (UpdateIndex has read Values(), has not applied them;
 //                                      kv/doc stores, point added by hooks_c17.diff)
-//   return of the call  : WDone
+//   return of the write : WIdle again
+// mode "writes": writers are parked at store.before_write_event only, i.e. after a complete
+// write and outside of whatever the write path locks: whole writes of different threads are
+// interleaved in a chosen order (batches are cut between their entries).
+//
+// A position is the number of model steps (4 per write) a thread has made.
 // ---------------------------------------------------------------------------------------
 
 const (
@@ -61,7 +79,7 @@ var c17Points = map[string]int{
 	"index.after_read":    c17IndexRead,
 }
 
-var c17HasLate bool
+var c17HasLate, c17HasWriteEvent bool
 
 // c17Probe performs one write on a scratch store and records which points it crosses.
 func c17Probe(r *Run) error {
@@ -101,29 +119,72 @@ func c17Probe(r *Run) error {
 	} else {
 		r.Notes = append(r.Notes, "index.after_read absent: view rebuilds are single steps, stale-view schedules cannot be forced")
 	}
+	c17HasWriteEvent = seen["store.before_write_event"]
+	if c17HasWriteEvent {
+		r.Count("point:store.before_write_event")
+	} else {
+		r.Notes = append(r.Notes, "store.before_write_event absent: schedules of whole writes run free")
+	}
 	return nil
 }
 
+// c17Doc is one key/value pair written by a call.  Values are unique over a scenario.
+type c17Doc struct{ key, val string }
+
+// c17Call is one call of the store's API made by a writer goroutine.
+type c17Call struct {
+	op   string   // put | del | batch | putall | add
+	docs []c17Doc // put, add: one; del: one (key only); batch, putall: several
+
+	ran     bool
+	err     error
+	retHash string // entry of the operation the call returned
+}
+
+// entries = log entries the call writes on the unchanged tree.
+func (c *c17Call) entries() int {
+	if c.op == "batch" {
+		return len(c.docs)
+	}
+	return 1
+}
+
+func (c *c17Call) String() string {
+	ks := make([]string, len(c.docs))
+	for i, d := range c.docs {
+		ks[i] = d.key
+	}
+	return c.op + "(" + strings.Join(ks, ",") + ")"
+}
+
 type c17Writer struct {
-	idx      int
-	key      string
-	val      []byte
-	doc      map[string]interface{}
-	late     bool     // park at store.before_persist rather than store.after_append
-	pc       int      // last point the driver has seen this writer at
+	idx   int
+	calls []*c17Call
+	count int  // single-entry writes of all calls together
+	late  bool // park at store.before_persist rather than store.after_append
+	delay bool // free runs: the first _localHeads write of each call is held back (c17Delay)
+
+	// written on the writer's own goroutine (hook, cache wrapper), read by the driver after done
+	nApp       int      // store.after_append points passed
+	hookHashes []string // entry hashes reported there
+	callWrites int      // _localHeads writes of the current call
+
+	// driver side
+	pos      int      // model steps made, as far as the driver has seen
+	schedN   int      // model steps the schedule has asked of this thread so far
+	started  bool     // goroutine launched
 	flying   bool     // released (or started) but not yet seen at its next point
-	arrived  chan int // points reached, in order (sent by the hook on the writer's goroutine)
+	arrived  chan int // positions reached, in order (sent by the hook on the writer's goroutine)
 	resume   chan struct{}
 	done     chan struct{}
-	hookHash string // entry hash reported at store.after_append
-	readLen  int    // log length read by UpdateIndex (index.after_read)
-	retHash  string
-	err      error
+	panicked error
 }
 
 type c17Ctl struct {
 	mu     sync.Mutex
 	byGoid map[uint64]*c17Writer
+	writes bool         // mode "writes": park at store.before_write_event only
+	active atomic.Int32 // writer goroutines launched and not yet returned
 	free   atomic.Bool
 	freeCh chan struct{}
 }
@@ -139,31 +200,52 @@ func c17Goid() uint64 {
 	return 0
 }
 
-func (c *c17Ctl) hook(name string, keys []string) {
-	pc, ok := c17Points[name]
-	if !ok {
-		return
-	}
+func (c *c17Ctl) writer() *c17Writer {
 	c.mu.Lock()
 	w := c.byGoid[c17Goid()]
 	c.mu.Unlock()
+	return w
+}
+
+func (c *c17Ctl) hook(name string, keys []string) {
+	pc, ok := c17Points[name]
+	if !ok && name != "store.before_write_event" {
+		return
+	}
+	w := c.writer()
 	if w == nil {
 		return
 	}
-	if name == "store.after_append" && len(keys) > 1 {
-		w.hookHash = keys[1]
+	if name == "store.after_append" {
+		w.nApp++
+		if len(keys) > 1 {
+			w.hookHashes = append(w.hookHashes, keys[1])
+		}
 	}
-	if pc == c17Appended && (name == "store.before_persist") != w.late {
-		return // this writer parks at the other WAppended place
-	}
-	if pc == c17IndexRead && len(keys) > 0 {
-		w.readLen, _ = strconv.Atoi(keys[0])
+	pos := 0
+	if c.writes {
+		if name != "store.before_write_event" {
+			return
+		}
+		pos = 4 * w.nApp
+	} else {
+		if !ok {
+			return
+		}
+		if pc == c17Appended && (name == "store.before_persist") != w.late {
+			return // this writer parks at the other WAppended place
+		}
+		n := w.nApp
+		if n < 1 {
+			n = 1 // a tree whose write path has no store.after_append on this route
+		}
+		pos = 4*(n-1) + pc
 	}
 	if c.free.Load() {
 		return
 	}
 	select {
-	case w.arrived <- pc:
+	case w.arrived <- pos:
 	default:
 	}
 	select {
@@ -179,9 +261,16 @@ func (c *c17Ctl) releaseAll() {
 	}
 }
 
+func c17DocValue(d c17Doc) map[string]interface{} {
+	return map[string]interface{}{"_id": d.key, "v": d.val}
+}
+
 func (c *c17Ctl) launch(st iface.Store, w *c17Writer, startGate <-chan struct{}) {
+	w.started = true
+	c.active.Add(1)
 	go func() {
 		defer close(w.done)
+		defer c.active.Add(-1)
 		c.mu.Lock()
 		c.byGoid[c17Goid()] = w
 		c.mu.Unlock()
@@ -190,31 +279,58 @@ func (c *c17Ctl) launch(st iface.Store, w *c17Writer, startGate <-chan struct{})
 		}
 		defer func() {
 			if p := recover(); p != nil {
-				w.err = fmt.Errorf("panic: %v", p)
+				w.panicked = fmt.Errorf("panic: %v", p)
 			}
 		}()
 		ctx := context.Background()
-		var op operation.Operation
-		var err error
-		switch x := st.(type) {
-		case iface.KeyValueStore:
-			op, err = x.Put(ctx, w.key, w.val)
-		case iface.DocumentStore:
-			op, err = x.Put(ctx, w.doc)
-		case iface.EventLogStore:
-			op, err = x.Add(ctx, w.val)
-		default:
-			err = fmt.Errorf("unknown store type")
+		for _, call := range w.calls {
+			w.callWrites = 0
+			call.ran = true
+			var op operation.Operation
+			var err error
+			switch x := st.(type) {
+			case iface.KeyValueStore:
+				switch call.op {
+				case "put":
+					op, err = x.Put(ctx, call.docs[0].key, []byte(call.docs[0].val))
+				case "del":
+					op, err = x.Delete(ctx, call.docs[0].key)
+				default:
+					err = fmt.Errorf("no %s on a key-value store", call.op)
+				}
+			case iface.DocumentStore:
+				switch call.op {
+				case "put":
+					op, err = x.Put(ctx, c17DocValue(call.docs[0]))
+				case "del":
+					op, err = x.Delete(ctx, call.docs[0].key)
+				case "batch", "putall":
+					vals := make([]interface{}, len(call.docs))
+					for i, d := range call.docs {
+						vals[i] = c17DocValue(d)
+					}
+					if call.op == "batch" {
+						op, err = x.PutBatch(ctx, vals)
+					} else {
+						op, err = x.PutAll(ctx, vals)
+					}
+				default:
+					err = fmt.Errorf("no %s on a document store", call.op)
+				}
+			case iface.EventLogStore:
+				op, err = x.Add(ctx, []byte(call.docs[0].val))
+			default:
+				err = fmt.Errorf("unknown store type")
+			}
+			if err == nil && (op == nil || op.GetEntry() == nil) {
+				err = fmt.Errorf("no entry returned")
+			}
+			if err != nil {
+				call.err = err
+				continue
+			}
+			call.retHash = op.GetEntry().GetHash().String()
 		}
-		if err != nil {
-			w.err = err
-			return
-		}
-		if op == nil || op.GetEntry() == nil {
-			w.err = fmt.Errorf("no entry returned")
-			return
-		}
-		w.retHash = op.GetEntry().GetHash().String()
 	}()
 }
 
@@ -224,6 +340,139 @@ func (c *c17Ctl) launch(st iface.Store, w *c17Writer, startGate <-chan struct{})
 // inexact (the checker then only requires an outcome the model allows).
 const c17StepWait = 200 * time.Millisecond
 const c17StepWaitAgain = 40 * time.Millisecond
+
+// ---------------------------------------------------------------------------------------
+// A cache that holds back _localHeads writes (free runs).
+//
+// The first _localHeads write of a call of a selected writer waits until every other writer
+// goroutine has returned, or c17DelayWait has elapsed.  If the write path persists the head
+// inside its critical section the others are queueing behind it and the wait just elapses
+// (or they have all returned already and there is nothing to wait for); a head persisted
+// outside of the critical section is overtaken by the other writers' heads and is then
+// written over them, as the last write of all: what the next load restores is this older
+// head's ancestry.  Only one write is held back at a time: a second selected writer that
+// arrives meanwhile passes (it is one of those the first is waiting for).  (Waiting for the
+// others to return rather than for one overtaking write: a later write of somebody else would
+// persist a newer head again and hide the damage.)
+// ---------------------------------------------------------------------------------------
+
+const c17DelayWait = 60 * time.Millisecond
+
+type c17Delay struct {
+	ctl       *c17Ctl
+	mu        sync.Mutex
+	waiting   bool
+	completed int
+	held      int // writes held back
+	overtaken int // ... during which another write completed
+}
+
+func (d *c17Delay) before() {
+	if d.ctl == nil {
+		return
+	}
+	w := d.ctl.writer()
+	if w == nil {
+		return
+	}
+	w.callWrites++
+	if !w.delay || w.callWrites > 1 {
+		return
+	}
+	d.mu.Lock()
+	if d.waiting {
+		d.mu.Unlock()
+		return
+	}
+	d.waiting = true
+	d.held++
+	target := d.completed
+	d.mu.Unlock()
+	deadline := time.Now().Add(c17DelayWait)
+	for {
+		alone := d.ctl.active.Load() <= 1
+		d.mu.Lock()
+		if alone || time.Now().After(deadline) {
+			d.waiting = false
+			if d.completed > target {
+				d.overtaken++
+			}
+			d.mu.Unlock()
+			return
+		}
+		d.mu.Unlock()
+		time.Sleep(200 * time.Microsecond)
+	}
+}
+
+func (d *c17Delay) after() {
+	d.mu.Lock()
+	d.completed++
+	d.mu.Unlock()
+}
+
+type c17DelayCache struct {
+	inner cache.Interface
+	d     *c17Delay
+}
+
+func (c *c17DelayCache) Load(directory string, dbAddress address.Address) (datastore.Datastore, error) {
+	ds, err := c.inner.Load(directory, dbAddress)
+	if err != nil {
+		return nil, err
+	}
+	return &c17DelayDS{Datastore: ds, d: c.d}, nil
+}
+func (c *c17DelayCache) Close() error { return c.inner.Close() }
+func (c *c17DelayCache) Destroy(directory string, dbAddress address.Address) error {
+	return c.inner.Destroy(directory, dbAddress)
+}
+
+type c17DelayDS struct {
+	datastore.Datastore
+	d *c17Delay
+}
+
+var c17LocalHeads = datastore.NewKey("_localHeads")
+
+func (d *c17DelayDS) Put(ctx context.Context, key datastore.Key, value []byte) error {
+	if key != c17LocalHeads {
+		return d.Datastore.Put(ctx, key, value)
+	}
+	d.d.before()
+	err := d.Datastore.Put(ctx, key, value)
+	d.d.after()
+	return err
+}
+
+// c17NewScen is NewScen(1, typ, nil) with the instance's cache wrapped by c17DelayCache.
+func c17NewScen(typ string, d *c17Delay) (*Scen, error) {
+	s, err := NewScen(0, typ, &ScenOpts{NoOpen: true})
+	if err != nil {
+		return nil, err
+	}
+	env := s.Env
+	idx := scenCounter * 100
+	dir := filepath.Join(env.Work, fmt.Sprintf("%s-%d", s.Label, idx))
+	rep, err := env.NewReplicaOpts(idx, s.Label, dir, sim.PeerIDFor(s.Label, idx), func(o *orbitdb.NewOrbitDBOptions) {
+		o.Cache = &c17DelayCache{inner: cacheleveldown.New(nil), d: d}
+	})
+	if err != nil {
+		return nil, err
+	}
+	s.Reps = append(s.Reps, rep)
+	s.Canon.Cid.Add(rep.Orbit.Identity().PublicKey)
+	s.Canon.Ident.ID(rep.Orbit.Identity().ID)
+	ac := &accesscontroller.CreateAccessControllerOptions{Access: map[string][]string{"write": {rep.Orbit.Identity().ID}}}
+	st, err := rep.Orbit.Create(env.Ctx, "db-"+s.Label, typ, &orbitdb.CreateDBOptions{AccessController: ac})
+	if err != nil {
+		return nil, fmt.Errorf("create: %w", err)
+	}
+	s.Stores = append(s.Stores, st)
+	s.Addr = st.Address().String()
+	s.Canon.LogID.ID(s.Addr)
+	return s, nil
+}
 
 // ---------------------------------------------------------------------------------------
 // schedules
@@ -266,6 +515,13 @@ type c17Plan struct {
 	shared bool
 	sched  []int // nil: free run
 	late   int   // WAppended parking place: 0 = after_append, 1 = before_persist, 2 = per writer at random
+
+	// plans whose threads make several writes (CMulti cases)
+	multi  bool
+	progs  [][]*c17Call // per thread
+	lateW  []bool       // per thread (instead of late)
+	writes bool         // sched is a schedule of whole writes (mode "writes")
+	delay  []bool       // free runs: threads whose _localHeads writes are held back; nil = plain cache
 }
 
 func c17Plans(r *Run) []c17Plan {
@@ -280,16 +536,16 @@ func c17Plans(r *Run) []c17Plan {
 	refView := []int{0, 0, 0, 1, 1, 1, 1, 0}
 	for k := 0; k < rep; k++ {
 		plans = append(plans,
-			c17Plan{"refute-recovery", "keyvalue", 2, false, refRec, 0},
-			c17Plan{"refute-recovery", "keyvalue", 2, true, refRec, 1},
-			c17Plan{"refute-recovery", "eventlog", 2, false, refRec, 1},
-			c17Plan{"refute-recovery", "eventlog", 2, false, refRec, 0},
-			c17Plan{"refute-recovery", "docstore", 2, true, refRec, 0},
-			c17Plan{"refute-recovery", "docstore", 2, false, refRec, 1},
-			c17Plan{"refute-view", "keyvalue", 2, true, refView, 0},
-			c17Plan{"refute-view", "keyvalue", 2, true, refView, 1},
-			c17Plan{"refute-view", "docstore", 2, true, refView, k % 2},
-			c17Plan{"refute-view", "keyvalue", 2, false, refView, 2}, // own keys: the stale rebuild cannot hide a key
+			c17Plan{kind: "refute-recovery", typ: "keyvalue", n: 2, sched: refRec},
+			c17Plan{kind: "refute-recovery", typ: "keyvalue", n: 2, shared: true, sched: refRec, late: 1},
+			c17Plan{kind: "refute-recovery", typ: "eventlog", n: 2, sched: refRec, late: 1},
+			c17Plan{kind: "refute-recovery", typ: "eventlog", n: 2, sched: refRec},
+			c17Plan{kind: "refute-recovery", typ: "docstore", n: 2, shared: true, sched: refRec},
+			c17Plan{kind: "refute-recovery", typ: "docstore", n: 2, sched: refRec, late: 1},
+			c17Plan{kind: "refute-view", typ: "keyvalue", n: 2, shared: true, sched: refView},
+			c17Plan{kind: "refute-view", typ: "keyvalue", n: 2, shared: true, sched: refView, late: 1},
+			c17Plan{kind: "refute-view", typ: "docstore", n: 2, shared: true, sched: refView, late: k % 2},
+			c17Plan{kind: "refute-view", typ: "keyvalue", n: 2, sched: refView, late: 2}, // own keys: the stale rebuild cannot hide a key
 		)
 	}
 	// all persist orders for 2 and 3 writers (appends in thread order, then persists in the
@@ -304,7 +560,7 @@ func c17Plans(r *Run) []c17Plan {
 			if n == 3 && p[0] == 1 {
 				typ = "eventlog"
 			}
-			plans = append(plans, c17Plan{"persist-perm", typ, n, r.Rng.Intn(2) == 0, s, r.Rng.Intn(3)})
+			plans = append(plans, c17Plan{kind: "persist-perm", typ: typ, n: n, shared: r.Rng.Intn(2) == 0, sched: s, late: r.Rng.Intn(3)})
 		}
 		// all apply orders after staggered append+persist+read (writer i reads i+1 entries)
 		for _, p := range c17Permutations(n) {
@@ -315,7 +571,7 @@ func c17Plans(r *Run) []c17Plan {
 			for i := 0; i < n; i++ {
 				s = append(s, i, i, i)
 			}
-			plans = append(plans, c17Plan{"apply-perm", "keyvalue", n, true, append(s, p...), r.Rng.Intn(3)})
+			plans = append(plans, c17Plan{kind: "apply-perm", typ: "keyvalue", n: n, shared: true, sched: append(s, p...), late: r.Rng.Intn(3)})
 		}
 	}
 	types := []string{"keyvalue", "keyvalue", "docstore", "keyvalue", "eventlog"}
@@ -333,12 +589,12 @@ func c17Plans(r *Run) []c17Plan {
 			s = append(s, i, i, i)
 		}
 		s = append(s, r.Rng.Perm(n)...)
-		plans = append(plans, c17Plan{"staggered", []string{"keyvalue", "docstore"}[r.Rng.Intn(2)], n, r.Rng.Intn(4) > 0, s, r.Rng.Intn(3)})
+		plans = append(plans, c17Plan{kind: "staggered", typ: []string{"keyvalue", "docstore"}[r.Rng.Intn(2)], n: n, shared: r.Rng.Intn(4) > 0, sched: s, late: r.Rng.Intn(3)})
 	}
 	for k := 0; k < nPhased; k++ {
 		n := 2 + r.Rng.Intn(7)
-		plans = append(plans, c17Plan{"phased", types[r.Rng.Intn(len(types))], n, r.Rng.Intn(3) > 0,
-			c17Phased(n, r.Rng.Perm(n), r.Rng.Perm(n), r.Rng.Perm(n)), r.Rng.Intn(3)})
+		plans = append(plans, c17Plan{kind: "phased", typ: types[r.Rng.Intn(len(types))], n: n, shared: r.Rng.Intn(3) > 0,
+			sched: c17Phased(n, r.Rng.Perm(n), r.Rng.Perm(n), r.Rng.Perm(n)), late: r.Rng.Intn(3)})
 	}
 	for k := 0; k < nRandom; k++ {
 		n := 2 + r.Rng.Intn(7)
@@ -348,7 +604,7 @@ func c17Plans(r *Run) []c17Plan {
 			s = append(s, i, i, i, i)
 		}
 		r.Rng.Shuffle(len(s), func(a, b int) { s[a], s[b] = s[b], s[a] })
-		plans = append(plans, c17Plan{"random", types[r.Rng.Intn(len(types))], n, r.Rng.Intn(3) > 0, s, r.Rng.Intn(3)})
+		plans = append(plans, c17Plan{kind: "random", typ: types[r.Rng.Intn(len(types))], n: n, shared: r.Rng.Intn(3) > 0, sched: s, late: r.Rng.Intn(3)})
 	}
 	for k := 0; k < nSerial; k++ {
 		n := 2 + r.Rng.Intn(7)
@@ -356,11 +612,277 @@ func c17Plans(r *Run) []c17Plan {
 		for _, i := range r.Rng.Perm(n) {
 			s = append(s, i, i, i, i)
 		}
-		plans = append(plans, c17Plan{"serial", types[r.Rng.Intn(len(types))], n, r.Rng.Intn(2) == 0, s, r.Rng.Intn(3)})
+		plans = append(plans, c17Plan{kind: "serial", typ: types[r.Rng.Intn(len(types))], n: n, shared: r.Rng.Intn(2) == 0, sched: s, late: r.Rng.Intn(3)})
 	}
 	for k := 0; k < nFree; k++ {
 		n := 2 + r.Rng.Intn(7)
-		plans = append(plans, c17Plan{"free", types[r.Rng.Intn(len(types))], n, r.Rng.Intn(2) == 0, nil, 0})
+		plans = append(plans, c17Plan{kind: "free", typ: types[r.Rng.Intn(len(types))], n: n, shared: r.Rng.Intn(2) == 0})
+	}
+	return append(plans, c17MultiPlans(r)...)
+}
+
+// ---------------------------------------------------------------------------------------
+// threads of several writes: programs and schedules
+// ---------------------------------------------------------------------------------------
+
+// c17Gen builds the programs of one scenario.  Keys are the thread's own ("t<i>k<j>") or the
+// key "shared" that every thread may write; a document-store Delete (which refuses a key that
+// is not in the index) only names a key that the same thread has put before and not deleted
+// since, and nobody else touches: on a tree where a write is in the view when its call
+// returns, it cannot fail.
+type c17Gen struct {
+	r    *Run
+	typ  string
+	nval int
+}
+
+func (g *c17Gen) doc(key string) c17Doc {
+	g.nval++
+	return c17Doc{key: key, val: fmt.Sprintf("v#%d#", g.nval)}
+}
+
+// c17Thread generates one thread's calls.
+type c17Thread struct {
+	g    *c17Gen
+	ti   int
+	nkey int
+	live []string // own keys currently put (document store deletes)
+}
+
+func (t *c17Thread) own() string {
+	t.nkey++
+	k := fmt.Sprintf("t%dk%d", t.ti, t.nkey)
+	t.live = append(t.live, k)
+	return k
+}
+
+func (t *c17Thread) someKey() string {
+	rng := t.g.r.Rng
+	if rng.Intn(3) == 0 {
+		return "shared"
+	}
+	if len(t.live) > 0 && rng.Intn(3) == 0 {
+		return t.live[rng.Intn(len(t.live))] // overwrite
+	}
+	return t.own()
+}
+
+func (t *c17Thread) put(key string) *c17Call {
+	return &c17Call{op: "put", docs: []c17Doc{t.g.doc(key)}}
+}
+
+func (t *c17Thread) several(op string, lo, hi int) *c17Call {
+	c := &c17Call{op: op}
+	k := lo + t.g.r.Rng.Intn(hi-lo+1)
+	used := map[string]bool{}
+	for j := 0; j < k; j++ {
+		key := t.someKey()
+		if used[key] {
+			key = t.own()
+		}
+		used[key] = true
+		c.docs = append(c.docs, t.g.doc(key))
+	}
+	return c
+}
+
+// calls: between 1 and maxCalls further calls of the thread.  shape of the first one: "" =
+// random; "batch" = a multi-entry call where the store has one (document store: PutBatch);
+// "puts".
+func (t *c17Thread) calls(shape string, maxCalls int) []*c17Call {
+	rng := t.g.r.Rng
+	var calls []*c17Call
+	n := 1 + rng.Intn(maxCalls)
+	for k := 0; k < n; k++ {
+		sh := ""
+		if k == 0 {
+			sh = shape
+		}
+		switch t.g.typ {
+		case "eventlog":
+			calls = append(calls, &c17Call{op: "add", docs: []c17Doc{t.g.doc("")}})
+		case "keyvalue":
+			if sh == "" && rng.Intn(3) == 0 {
+				key := "shared"
+				if len(t.live) > 0 && rng.Intn(2) == 0 {
+					key = t.live[rng.Intn(len(t.live))]
+				}
+				calls = append(calls, &c17Call{op: "del", docs: []c17Doc{{key: key}}})
+			} else {
+				calls = append(calls, t.put(t.someKey()))
+			}
+		default: // document store
+			if sh == "" {
+				sh = []string{"puts", "puts", "batch", "putall", "putdel"}[rng.Intn(5)]
+			}
+			switch sh {
+			case "batch":
+				calls = append(calls, t.several("batch", 2, 4))
+			case "putall":
+				calls = append(calls, t.several("putall", 2, 3))
+			case "putdel":
+				if len(t.live) == 0 {
+					calls = append(calls, t.put(t.own()))
+				}
+				i := rng.Intn(len(t.live))
+				key := t.live[i]
+				t.live = append(t.live[:i:i], t.live[i+1:]...)
+				calls = append(calls, &c17Call{op: "del", docs: []c17Doc{{key: key}}})
+			default:
+				calls = append(calls, t.put(t.someKey()))
+			}
+		}
+	}
+	return calls
+}
+
+// prog: a thread's whole program; at least minCalls calls; a thread whose shape is "batch"
+// makes at least two writes whatever the store type.
+func (g *c17Gen) prog(ti int, shape string, minCalls, maxCalls int) []*c17Call {
+	t := &c17Thread{g: g, ti: ti}
+	calls := t.calls(shape, maxCalls)
+	for len(calls) < minCalls || (shape == "batch" && len(calls) < 2 && calls[0].entries() < 2) {
+		calls = append(calls, t.calls("puts", 1)...)
+	}
+	return calls
+}
+
+func c17Counts(progs [][]*c17Call) []int {
+	out := make([]int, len(progs))
+	for i, p := range progs {
+		for _, c := range p {
+			out[i] += c.entries()
+		}
+	}
+	return out
+}
+
+func c17MultiPlans(r *Run) []c17Plan {
+	var plans []c17Plan
+	nWindow, nWrites, nSteps, nDelay, nFree := 8, 6, 3, 8, 4
+	if r.Tier == "thorough" {
+		nWindow, nWrites, nSteps, nDelay, nFree = 60, 40, 24, 60, 30
+	}
+	types := []string{"docstore", "docstore", "keyvalue", "eventlog"}
+	chain := func(sched []int, i, steps int) []int {
+		for k := 0; k < steps; k++ {
+			sched = append(sched, i)
+		}
+		return sched
+	}
+	// (1) window: thread 0 makes a multi-entry call (document store: PutBatch) and is parked
+	// directly before the _localHeads write of its j-th entry; the other threads are then
+	// released for all of their writes, one thread after the other; then thread 0 goes on.
+	// (Where the persist is inside the critical section the others cannot get past their
+	// appends and the run is recorded as blocked.)
+	for k := 0; k < nWindow; k++ {
+		typ := "docstore"
+		if k%4 == 3 {
+			typ = types[r.Rng.Intn(len(types))]
+		}
+		g := &c17Gen{r: r, typ: typ}
+		n := 2 + r.Rng.Intn(3)
+		progs := make([][]*c17Call, n)
+		// thread 0: one multi-entry call and nothing after it (a later write of its own would
+		// persist a newer head again); key-value and event log: two single-entry calls
+		progs[0] = g.prog(0, "batch", 1, 1)
+		for i := 1; i < n; i++ {
+			progs[i] = g.prog(i, "", 1, 2)
+		}
+		counts := c17Counts(progs)
+		// j = 1: a call that persists once for all of its entries is caught before that;
+		// j = last: a call that persists entry by entry is caught at the head it persists last
+		// (after an earlier one it would persist a newer head itself and hide the damage)
+		j := 1
+		switch k % 4 {
+		case 1:
+			j = counts[0]
+		case 3:
+			j = 1 + r.Rng.Intn(counts[0])
+		}
+		lateW := make([]bool, n)
+		lateW[0] = true
+		for i := 1; i < n; i++ {
+			lateW[i] = r.Rng.Intn(2) == 0
+		}
+		sched := chain(nil, 0, 4*(j-1)+1)
+		for _, i := range r.Rng.Perm(n - 1) {
+			sched = chain(sched, i+1, 4*counts[i+1])
+		}
+		sched = chain(sched, 0, 4*counts[0]-(4*(j-1)+1))
+		plans = append(plans, c17Plan{kind: "m-window", typ: typ, n: n, multi: true, progs: progs, lateW: lateW, sched: sched})
+	}
+	// (2) whole writes of the threads in a random order (a batch is cut between its entries)
+	for k := 0; k < nWrites; k++ {
+		typ := types[r.Rng.Intn(len(types))]
+		g := &c17Gen{r: r, typ: typ}
+		n := 2 + r.Rng.Intn(4)
+		progs := make([][]*c17Call, n)
+		for i := range progs {
+			shape := ""
+			if i == 0 {
+				shape = "batch"
+			}
+			progs[i] = g.prog(i, shape, 1, 3)
+		}
+		var sched []int
+		for i, c := range c17Counts(progs) {
+			sched = chain(sched, i, c)
+		}
+		r.Rng.Shuffle(len(sched), func(a, b int) { sched[a], sched[b] = sched[b], sched[a] })
+		plans = append(plans, c17Plan{kind: "m-writes", typ: typ, n: n, multi: true, progs: progs, sched: sched, writes: true})
+	}
+	// (3) uniform interleaving of the threads' step chains
+	for k := 0; k < nSteps; k++ {
+		typ := types[r.Rng.Intn(len(types))]
+		g := &c17Gen{r: r, typ: typ}
+		n := 2 + r.Rng.Intn(2)
+		progs := make([][]*c17Call, n)
+		lateW := make([]bool, n)
+		for i := range progs {
+			progs[i] = g.prog(i, "", 1, 2)
+			lateW[i] = r.Rng.Intn(2) == 0
+		}
+		var sched []int
+		for i, c := range c17Counts(progs) {
+			sched = chain(sched, i, 4*c)
+		}
+		r.Rng.Shuffle(len(sched), func(a, b int) { sched[a], sched[b] = sched[b], sched[a] })
+		plans = append(plans, c17Plan{kind: "m-steps", typ: typ, n: n, multi: true, progs: progs, lateW: lateW, sched: sched})
+	}
+	// (4) free runs; with delay: the first _localHeads write of every call of one or two of
+	// the threads (thread 0, which makes one multi-entry call, among them) is held back
+	for k := 0; k < nDelay+nFree; k++ {
+		typ := "docstore"
+		if k%3 == 2 {
+			typ = types[r.Rng.Intn(len(types))]
+		}
+		g := &c17Gen{r: r, typ: typ}
+		n := 3 + r.Rng.Intn(3)
+		progs := make([][]*c17Call, n)
+		if k < nDelay {
+			n = 3 + r.Rng.Intn(2)
+			progs = make([][]*c17Call, n)
+			progs[0] = g.prog(0, "batch", 1, 1)
+			for i := 1; i < n; i++ {
+				progs[i] = g.prog(i, "", 1, 2)
+			}
+		} else {
+			progs[0] = g.prog(0, "batch", 1, 2)
+			for i := 1; i < n; i++ {
+				progs[i] = g.prog(i, "", 3, 4)
+			}
+		}
+		p := c17Plan{kind: "m-free", typ: typ, n: n, multi: true, progs: progs}
+		if k < nDelay {
+			p.kind = "m-free-delay"
+			p.delay = make([]bool, n)
+			p.delay[0] = true
+			if r.Rng.Intn(2) == 0 {
+				p.delay[1+r.Rng.Intn(n-1)] = true
+			}
+		}
+		plans = append(plans, p)
 	}
 	return plans
 }
@@ -373,6 +895,7 @@ func c17Plans(r *Run) []c17Plan {
 // append, after persisting _localHeads and between reading the log and applying it to the
 // view, and released one step at a time in the order of a model schedule; (B) free runs.
 // Then: acknowledged entries, listing, view; close, reopen, Load(-1), listing again.
+// Threads make one write each (CWriters) or several calls of one or several entries (CMulti).
 func runC17(r *Run) error {
 	defer closeEnv()
 	defer func() { sim.TheHooks.Extra = nil }()
@@ -388,16 +911,75 @@ func runC17(r *Run) error {
 	return nil
 }
 
+// c17OpView is what one log entry does to the view.
+type c17OpView struct {
+	op   string
+	docs []c17Doc // put: key/value; del: key; putall: each document; add: value
+}
+
+func c17DocMarker(raw []byte) string {
+	var m map[string]interface{}
+	if json.Unmarshal(raw, &m) == nil {
+		if v, ok := m["v"].(string); ok {
+			return v
+		}
+	}
+	return "?" + string(raw)
+}
+
+func c17ParseEntry(typ string, e ipfslog.Entry) (c17OpView, error) {
+	op, err := operation.ParseOperation(e)
+	if err != nil {
+		return c17OpView{}, err
+	}
+	val := func(raw []byte) string {
+		if typ == "docstore" {
+			return c17DocMarker(raw)
+		}
+		return string(raw)
+	}
+	key := ""
+	if k := op.GetKey(); k != nil {
+		key = *k
+	}
+	switch op.GetOperation() {
+	case "PUT":
+		return c17OpView{op: "put", docs: []c17Doc{{key, val(op.GetValue())}}}, nil
+	case "DEL":
+		return c17OpView{op: "del", docs: []c17Doc{{key: key}}}, nil
+	case "PUTALL":
+		v := c17OpView{op: "putall"}
+		for _, d := range op.GetDocs() {
+			v.docs = append(v.docs, c17Doc{d.GetKey(), val(d.GetValue())})
+		}
+		return v, nil
+	case "ADD":
+		return c17OpView{op: "add", docs: []c17Doc{{"", string(op.GetValue())}}}, nil
+	}
+	return c17OpView{op: "?" + op.GetOperation()}, nil
+}
+
 func c17RunOne(r *Run, pi int, p c17Plan) error {
-	s, err := NewScen(1, p.typ, nil)
+	var s *Scen
+	var err error
+	var delay *c17Delay
+	if p.delay != nil {
+		delay = &c17Delay{}
+		s, err = c17NewScen(p.typ, delay)
+	} else {
+		s, err = NewScen(1, p.typ, nil)
+	}
 	if err != nil {
 		return err
 	}
 	defer s.Close()
 	st := s.Stores[0]
-	ctl := &c17Ctl{byGoid: map[uint64]*c17Writer{}, freeCh: make(chan struct{})}
 	forced := p.sched != nil
-	if !forced {
+	ctl := &c17Ctl{byGoid: map[uint64]*c17Writer{}, freeCh: make(chan struct{}), writes: p.writes}
+	if delay != nil {
+		delay.ctl = ctl
+	}
+	if !forced || (p.writes && !c17HasWriteEvent) {
 		ctl.free.Store(true)
 		close(ctl.freeCh)
 	}
@@ -407,14 +989,31 @@ func c17RunOne(r *Run, pi int, p c17Plan) error {
 	shared := p.shared && p.typ != "eventlog"
 	ws := make([]*c17Writer, p.n)
 	for i := range ws {
-		key := fmt.Sprintf("k%d", i)
-		if shared {
-			key = "shared"
+		w := &c17Writer{idx: i, arrived: make(chan int, 8), resume: make(chan struct{}), done: make(chan struct{})}
+		if p.multi {
+			w.calls = p.progs[i]
+			if p.lateW != nil {
+				w.late = p.lateW[i] && c17HasLate
+			}
+			if p.delay != nil {
+				w.delay = p.delay[i]
+			}
+		} else {
+			key := fmt.Sprintf("k%d", i)
+			if shared {
+				key = "shared"
+			}
+			op := "put"
+			if p.typ == "eventlog" {
+				op = "add"
+			}
+			w.calls = []*c17Call{{op: op, docs: []c17Doc{{key, fmt.Sprintf("v#%d#", i)}}}}
+			w.late = (p.late == 1 || (p.late == 2 && r.Rng.Intn(2) == 0)) && c17HasLate
 		}
-		val := fmt.Sprintf("v#%d#", i)
-		late := p.late == 1 || (p.late == 2 && r.Rng.Intn(2) == 0)
-		ws[i] = &c17Writer{idx: i, late: late && c17HasLate, key: key, val: []byte(val), doc: map[string]interface{}{"_id": key, "v": val},
-			arrived: make(chan int, 8), resume: make(chan struct{}), done: make(chan struct{})}
+		for _, c := range w.calls {
+			w.count += c.entries()
+		}
+		ws[i] = w
 	}
 
 	blocked := false
@@ -435,36 +1034,44 @@ func c17RunOne(r *Run, pi int, p c17Plan) error {
 			}
 			// prefer arrivals over the timeout
 			select {
-			case pc := <-w.arrived:
-				w.pc, w.flying = pc, false
+			case pos := <-w.arrived:
+				w.pos, w.flying = pos, false
 				return true
 			case <-w.done:
-				w.pc, w.flying = c17Done, false
+				w.pos, w.flying = 4*w.count, false
 				return true
 			default:
 			}
 			select {
-			case pc := <-w.arrived:
-				w.pc, w.flying = pc, false
+			case pos := <-w.arrived:
+				w.pos, w.flying = pos, false
 				return true
 			case <-w.done:
-				w.pc, w.flying = c17Done, false
+				w.pos, w.flying = 4*w.count, false
 				return true
 			case <-t:
 				return false
 			}
 		}
+		unit := 1
+		if p.writes {
+			unit = 4
+		}
 		for _, i := range p.sched {
 			w := ws[i]
+			w.schedN += unit
 			if w.flying && !settle(w, 0) {
 				skipped++
 				continue
 			}
-			if w.pc == c17Done {
-				continue // e.g. second half of a combined step (no index.after_read point on this store type)
+			if w.pos >= w.schedN || w.pos >= 4*w.count {
+				// this step was made together with an earlier one: no point between the two (no
+				// index.after_read on this store type; the return of a write and the append of the
+				// thread's next one)
+				continue
 			}
-			before := w.pc
-			if w.pc == c17Start {
+			before := w.pos
+			if !w.started {
 				ctl.launch(st, w, nil)
 			} else {
 				w.resume <- struct{}{}
@@ -483,9 +1090,9 @@ func c17RunOne(r *Run, pi int, p c17Plan) error {
 				continue
 			}
 			// model steps performed by this release
-			steps := w.pc - before
-			if steps < 1 {
-				steps = 1
+			steps := w.pos - before
+			if steps < unit {
+				steps = unit
 			}
 			for k := 0; k < steps; k++ {
 				executed = append(executed, i)
@@ -504,7 +1111,7 @@ func c17RunOne(r *Run, pi int, p c17Plan) error {
 	ctl.releaseAll()
 	// never-started writers of a forced schedule (only when steps were skipped): run them now
 	for _, w := range ws {
-		if forced && w.pc == c17Start && !w.flying {
+		if forced && !w.started {
 			ctl.launch(st, w, nil)
 			w.flying = true
 			blocked = true
@@ -523,6 +1130,20 @@ func c17RunOne(r *Run, pi int, p c17Plan) error {
 		}
 	}
 	descr := map[string]interface{}{"kind": p.kind, "plan": pi, "type": p.typ, "n": p.n, "shared": shared, "sched": p.sched, "forced": forced, "late": p.late}
+	if p.multi {
+		progs := make([][]string, len(ws))
+		for i, w := range ws {
+			for _, c := range w.calls {
+				progs[i] = append(progs[i], c.String())
+			}
+		}
+		descr["progs"] = progs
+		descr["late"] = p.lateW
+		descr["whole_writes"] = p.writes
+		if p.delay != nil {
+			descr["delay"] = p.delay
+		}
+	}
 	if hang {
 		r.AddDirect("hang:writers", "writers did not return within 20 s", descr)
 		r.Count("hang")
@@ -541,31 +1162,87 @@ func c17RunOne(r *Run, pi int, p c17Plan) error {
 	}
 	logAfterEntries := st.OpLog().Values().Slice()
 	logAfter := make([]int, len(logAfterEntries))
+	views := make([]c17OpView, len(logAfterEntries))
+	byMarker := map[string]string{} // value written by a put -> entry hash
 	for i, e := range logAfterEntries {
-		logAfter[i] = idOf(e.GetHash().String())
-	}
-	var returned []int
-	byHash := map[string]*c17Writer{}
-	errs := 0
-	for _, w := range ws {
-		if w.err != nil {
-			errs++
-			r.Count("write-error")
-			r.Notes = append(r.Notes, fmt.Sprintf("plan %d writer %d: %v", pi, w.idx, w.err))
-			continue
+		h := e.GetHash().String()
+		logAfter[i] = idOf(h)
+		v, err := c17ParseEntry(p.typ, e)
+		if err != nil {
+			return fmt.Errorf("entry %s: %w", h, err)
 		}
-		returned = append(returned, idOf(w.retHash))
-		byHash[w.retHash] = w
-		if forced && w.hookHash != "" && w.hookHash != w.retHash {
+		views[i] = v
+		if v.op == "put" {
+			byMarker[v.docs[0].val] = h
+		}
+	}
+	// entries acknowledged to each thread, in call order
+	acked := make([][]int, len(ws))
+	valOwner := map[string]*c17Call{}
+	for i, w := range ws {
+		acked[i] = []int{}
+		if w.panicked != nil {
+			r.Count("write-panic")
+			r.Notes = append(r.Notes, fmt.Sprintf("plan %d writer %d: %v", pi, w.idx, w.panicked))
+		}
+		var hashes []string
+		for _, c := range w.calls {
+			for _, d := range c.docs {
+				if d.val != "" {
+					valOwner[d.val] = c
+				}
+			}
+			if !c.ran {
+				continue
+			}
+			if c.err != nil {
+				r.Count("write-error")
+				r.Count("write-error:" + c.op)
+				r.Notes = append(r.Notes, fmt.Sprintf("plan %d writer %d %s: %v", pi, w.idx, c, c.err))
+				continue
+			}
+			if c.op != "batch" {
+				hashes = append(hashes, c.retHash)
+				continue
+			}
+			// a batch acknowledges every document: the entries that carry them (an entry that is
+			// not in the log gets a name of its own), the last one being the returned operation's
+			for j, d := range c.docs {
+				h, ok := byMarker[d.val]
+				if !ok {
+					h = "missing:" + d.val
+				}
+				if j == len(c.docs)-1 {
+					h = c.retHash
+				}
+				hashes = append(hashes, h)
+			}
+		}
+		for _, h := range hashes {
+			acked[i] = append(acked[i], idOf(h))
+		}
+		if forced && !p.writes && len(w.hookHashes) > 0 && strings.Join(w.hookHashes, ",") != strings.Join(hashes, ",") {
 			blocked = true // attribution of schedule points to writers failed: do not claim exactness
 			r.Count("forced:attribution-mismatch")
 		}
 	}
+	var returned []int
+	for _, a := range acked {
+		returned = append(returned, a...)
+	}
 	// expected view = replay of the listing
 	expect := map[string]string{}
-	for _, e := range logAfterEntries {
-		if w := byHash[e.GetHash().String()]; w != nil {
-			expect[w.key] = string(w.val)
+	var expectAdds []string
+	for _, v := range views {
+		switch v.op {
+		case "put", "putall":
+			for _, d := range v.docs {
+				expect[d.key] = d.val
+			}
+		case "del":
+			delete(expect, v.docs[0].key)
+		case "add":
+			expectAdds = append(expectAdds, v.docs[0].val)
 		}
 	}
 	viewComplete := true
@@ -593,16 +1270,15 @@ func c17RunOne(r *Run, pi int, p c17Plan) error {
 		if err != nil {
 			return fmt.Errorf("list: %w", err)
 		}
-		// the event log has no keys: every writer's value must be listed
-		for _, w := range ws {
-			if w.err != nil {
-				continue
-			}
-			for _, op := range ops {
-				if bytes.Equal(op.GetValue(), w.val) {
-					got[w.key] = string(w.val)
-				}
-			}
+		// the event log has no keys: the listed values must be those of the log's entries
+		var gotAdds []string
+		for _, op := range ops {
+			gotAdds = append(gotAdds, string(op.GetValue()))
+		}
+		sort.Strings(gotAdds)
+		sort.Strings(expectAdds)
+		if strings.Join(gotAdds, "\x00") != strings.Join(expectAdds, "\x00") {
+			viewComplete = false
 		}
 	}
 	if len(got) != len(expect) {
@@ -613,13 +1289,11 @@ func c17RunOne(r *Run, pi int, p c17Plan) error {
 			viewComplete = false
 		}
 	}
-	if shared {
+	if shared && !p.multi {
 		// which entry's value does the view show?
 		if v, ok := got["shared"]; ok {
-			for _, w := range ws {
-				if w.err == nil && string(w.val) == v {
-					viewN = idOf(w.retHash)
-				}
+			if c := valOwner[v]; c != nil && c.err == nil && c.ran {
+				viewN = idOf(c.retHash)
 			}
 		}
 	}
@@ -695,6 +1369,12 @@ func c17RunOne(r *Run, pi int, p c17Plan) error {
 	descr["lost"] = lost
 	descr["view_complete"] = viewComplete
 	descr["recovered"] = len(recovered)
+	if delay != nil {
+		descr["held"] = delay.held
+		descr["overtaken"] = delay.overtaken
+		r.Dist["delay:held"] += delay.held
+		r.Dist["delay:overtaken"] += delay.overtaken
+	}
 	schedOut := executed
 	if !forced {
 		schedOut = nil
@@ -703,18 +1383,39 @@ func c17RunOne(r *Run, pi int, p c17Plan) error {
 	for i, x := range schedOut {
 		schedTerms[i] = strconv.Itoa(x)
 	}
-	coq := fmt.Sprintf("(CWriters %s (%s)%%nat %s %s %s %s %s %s %s %s)",
-		sim.CoqNat(p.n), "["+strings.Join(schedTerms, "; ")+"]", sim.CoqBool(forced), sim.CoqBool(blocked), sim.CoqBool(shared),
-		sim.CoqListN(returned), sim.CoqListN(logAfter), sim.CoqBool(viewComplete), sim.CoqN(viewN), sim.CoqListN(recovered))
-	r.AddCase(coq, descr, true)
+	schedCoq := "([" + strings.Join(schedTerms, "; ") + "])%nat"
+	if p.multi {
+		counts := make([]string, len(ws))
+		ackTerms := make([]string, len(ws))
+		total := 0
+		for i, w := range ws {
+			counts[i] = strconv.Itoa(w.count)
+			ackTerms[i] = sim.CoqListN(acked[i])
+			total += w.count
+			for _, c := range w.calls {
+				r.Count("call:" + p.typ + ":" + c.op)
+			}
+		}
+		coq := fmt.Sprintf("(CMulti ([%s])%%nat %s %s %s %s %s %s %s)",
+			strings.Join(counts, "; "), schedCoq, sim.CoqBool(forced), sim.CoqBool(blocked),
+			sim.CoqList(ackTerms), sim.CoqListN(logAfter), sim.CoqBool(viewComplete), sim.CoqListN(recovered))
+		r.AddCase(coq, descr, true)
+		r.Count(fmt.Sprintf("multi:threads=%d", p.n))
+		r.Count(fmt.Sprintf("multi:writes=%d", total))
+	} else {
+		coq := fmt.Sprintf("(CWriters %s %s %s %s %s %s %s %s %s %s)",
+			sim.CoqNat(p.n), schedCoq, sim.CoqBool(forced), sim.CoqBool(blocked), sim.CoqBool(shared),
+			sim.CoqListN(returned), sim.CoqListN(logAfter), sim.CoqBool(viewComplete), sim.CoqN(viewN), sim.CoqListN(recovered))
+		r.AddCase(coq, descr, true)
+		r.Count(fmt.Sprintf("writers=%d", p.n))
+		if shared {
+			r.Count("keys:shared")
+		} else {
+			r.Count("keys:own")
+		}
+	}
 	r.Count("kind:" + p.kind)
 	r.Count("type:" + p.typ)
-	r.Count(fmt.Sprintf("writers=%d", p.n))
-	if shared {
-		r.Count("keys:shared")
-	} else {
-		r.Count("keys:own")
-	}
 	if forced {
 		if blocked {
 			r.Count("forced:blocked")
